@@ -533,6 +533,13 @@ fn main() {
     let stdout = io::stdout();
     let mut out = Out { w: BufWriter::with_capacity(1 << 20, stdout.lock()), worker: None, small: None, n: 0, seen: HashSet::new(), nontriv: 0,
                         counts: HashMap::new(), contracts: 0, max_ms: 0, slowest: String::new(), hard_ms: HARD_MS };
+    {
+        // BUILTINS of meta/src/validator.rs (private there): the fixed names plus the Unicode property names
+        let mut b: Vec<&str> = vec!["ANY", "DROP", "EOI", "PEEK", "PEEK_ALL", "POP", "POP_ALL", "SOI", "ASCII_DIGIT", "ASCII_NONZERO_DIGIT", "ASCII_BIN_DIGIT",
+            "ASCII_OCT_DIGIT", "ASCII_HEX_DIGIT", "ASCII_ALPHA_LOWER", "ASCII_ALPHA_UPPER", "ASCII_ALPHA", "ASCII_ALPHANUMERIC", "ASCII", "NEWLINE"];
+        b.extend(pest::unicode::unicode_property_names());
+        writeln!(out.w, "#BUILTINS\t{}", b.join(",")).unwrap();
+    }
     match mode.as_str() {
         "probe" => {
             let mut kv = vec![];
